@@ -162,10 +162,18 @@ func vh_C11_L2_credit_and_full_buffer() {
 	// now an arbitrary further chunk arrives while the window is zero
 	t := nondetU32()
 	vassume(t-cum != 1<<31 && t != cum+5)
-	c := vDataChunk(a, t, 6, true, 1)
+	// ... on a new stream or on the stream that already holds data, with any fragment flags
+	// (a whole message, a first, middle or last fragment), ordered or unordered
+	sid := []uint16{6, 4}[vPick(2)]
+	c := vDataChunk(a, t, sid, nondetBool(), 1)
+	c.beginningFragment, c.endingFragment = nondetBool(), nondetBool()
+	heldBefore := a.streams[4].getNumBytesInReassemblyQueue()
 	vassert(vDeliver(a, c) == nil, "DATA is never fatal")
-	s6 := a.streams[6]
-	stored := s6 != nil && s6.getNumBytesInReassemblyQueue() > 0
+	held := a.streams[4].getNumBytesInReassemblyQueue()
+	if s6 := a.streams[6]; s6 != nil {
+		held += s6.getNumBytesInReassemblyQueue()
+	}
+	stored := held > heldBefore
 	fillsGap := vInWindow(a, cum, t) && t-cum < 5
 	vassert(stored == fillsGap, "with a zero window only chunks below the highest TSN received are stored")
 	vassert(a.willSendAbort == false, "a full buffer is not a protocol violation")
